@@ -14,10 +14,10 @@ func init() {
 		Explanation: "Decides the structural clause of determinism: no observable (parse errors, static types, evaluation order, " +
 			"printed text, drawing commands) depends on Go map iteration order (R-MAPRANGE over every range-over-map loop of all " +
 			"packages in scope, default and tinygo configurations, with callees classified against order sinks over the CHA call graph), " +
-			"and the only time/random sources are the seedable RandSource (R-TIMESOURCE).",
-		NotDecided:  "Nothing about the values computed; only that map order, time and addresses cannot reach an observable.",
+			"the only time/random sources are the seedable RandSource (R-TIMESOURCE), and no fmt formatting call prints a machine address (R-ADDRPRINT).",
+		NotDecided:  "Nothing about the values computed; only that map order, time, random sources and addresses cannot reach an observable.",
 		Assumptions: []string{"single goroutine (checked: no go statement in scope)", "stores into Go maps inside a map-range loop use distinct keys per iteration", "sort keys used after append-in-map-order are injective"},
-		Rules:       []*Rule{ruleMapRange, ruleTimeSource},
+		Rules:       []*Rule{ruleMapRange, ruleTimeSource, ruleAddrPrint},
 	})
 }
 
